@@ -16,6 +16,7 @@ allocation counter, so that writing one relay's object never disturbs another's.
 -/
 namespace TxV.Props.C16
 open TxV.Consensus TxV.ConsensusSpec
+open TxV.Split (Text)
 
 /-! ### association lists -/
 
@@ -376,6 +377,169 @@ theorem C16_identity_kept (s s' : RS) (ls : List NsLine) (es : List Entry) (hs :
                             byName := [], guards := [], authorities := [] } :=
     ⟨by intro p hp; simp at hp, by intro p hp; simp at hp, hs.inj, by intro p hp; simp at hp, hs.lt⟩
   exact fold_hex_get es _ e he h0 (by simpa [DistinctIds] using hd) o ho
+
+/-! ### lookup by nickname -/
+
+theorem createRouter_names (s : RS) (e : Entry) :
+    (createRouter s e).routersName = match assocGet s.routersName e.nick with
+      | some _ => assocSet s.routersName e.nick none
+      | none => assocSet s.routersName e.nick (some (oidFor s e)) := by
+  unfold createRouter oidFor
+  cases assocGet s.old e.id <;> rfl
+
+def nickCount (es : List Entry) (n : Text) : Nat := (es.filter (·.nick = n)).length
+
+theorem nickCount_append (a b : List Entry) (n : Text) : nickCount (a ++ b) n = nickCount a n + nickCount b n := by
+  simp [nickCount, List.filter_append]
+
+/-- what `routers[name]` holds while a document is being processed: nothing for a nickname not seen, the relay's
+    object for one seen once, the marker `None` for one seen more often -/
+structure NamesOk (s : RS) (done : List Entry) : Prop where
+  zero : ∀ n, nickCount done n = 0 → assocGet s.routersName n = none
+  one : ∀ n, nickCount done n = 1 → ∃ e ∈ done, e.nick = n ∧ ∃ o, assocGet s.routersName n = some (some o) ∧
+          assocGet s.routersHex e.id = some o
+  many : ∀ n, 2 ≤ nickCount done n → assocGet s.routersName n = some none
+
+theorem createRouter_names_ok (s : RS) (done : List Entry) (x : Entry) (h : NamesOk s done)
+    (hfresh : ∀ e ∈ done, e.id ≠ x.id) : NamesOk (createRouter s x) (done ++ [x]) := by
+  have hcount : ∀ n, nickCount (done ++ [x]) n = nickCount done n + (if x.nick = n then 1 else 0) := by
+    intro n
+    rw [nickCount_append]
+    by_cases hn : x.nick = n <;> simp [nickCount, hn]
+  have hhex_other : ∀ e ∈ done, assocGet (createRouter s x).routersHex e.id = assocGet s.routersHex e.id := by
+    intro e he
+    rw [createRouter_hex, assocGet_assocSet_ne _ _ _ _ (hfresh e he)]
+  have hname_other : ∀ n, x.nick ≠ n → assocGet (createRouter s x).routersName n = assocGet s.routersName n := by
+    intro n hn
+    rw [createRouter_names]
+    split <;> exact assocGet_assocSet_ne _ _ _ _ (fun e => hn e.symm)
+  refine ⟨?_, ?_, ?_⟩
+  · intro n hc
+    rw [hcount] at hc
+    by_cases hn : x.nick = n
+    · simp [hn] at hc
+    · simp only [hn, if_false, Nat.add_zero] at hc
+      rw [hname_other n hn]
+      exact h.zero n hc
+  · intro n hc
+    rw [hcount] at hc
+    by_cases hn : x.nick = n
+    · simp only [hn, if_true] at hc
+      have h0 : nickCount done n = 0 := by omega
+      refine ⟨x, by simp, hn, oidFor s x, ?_, ?_⟩
+      · rw [createRouter_names, hn, h.zero n h0]
+        simp only
+        exact assocGet_assocSet _ _ _
+      · rw [createRouter_hex]
+        exact assocGet_assocSet _ _ _
+    · simp only [hn, if_false, Nat.add_zero] at hc
+      obtain ⟨e, he, hen, o, h1, h2⟩ := h.one n hc
+      refine ⟨e, by simp [he], hen, o, ?_, ?_⟩
+      · rw [hname_other n hn]; exact h1
+      · rw [hhex_other e he]; exact h2
+  · intro n hc
+    rw [hcount] at hc
+    by_cases hn : x.nick = n
+    · simp only [hn, if_true] at hc
+      rw [createRouter_names, hn]
+      by_cases h1 : nickCount done n = 1
+      · obtain ⟨e, _, _, o, hg, _⟩ := h.one n h1
+        rw [hg]
+        simp only
+        exact assocGet_assocSet _ _ _
+      · have h2 : 2 ≤ nickCount done n := by omega
+        rw [h.many n h2]
+        simp only
+        exact assocGet_assocSet _ _ _
+    · simp only [hn, if_false, Nat.add_zero] at hc
+      rw [hname_other n hn]
+      exact h.many n hc
+
+theorem fold_names_ok (es : List Entry) (s : RS) (done : List Entry) (h : NamesOk s done)
+    (hnd : ((done ++ es).map (·.id)).Nodup) : NamesOk (es.foldl createRouter s) (done ++ es) := by
+  induction es generalizing s done with
+  | nil => simpa using h
+  | cons x rest ih =>
+    have hfresh : ∀ e ∈ done, e.id ≠ x.id := by
+      intro e he heq
+      rw [List.map_append, List.nodup_append] at hnd
+      exact hnd.2.2 _ (List.mem_map.mpr ⟨e, he, rfl⟩) _ (by simp) heq
+    have := ih (createRouter s x) (done ++ [x]) (createRouter_names_ok s done x h hfresh)
+      (by simpa [List.append_assoc] using hnd)
+    simpa [List.append_assoc] using this
+
+theorem assocSet_keys_nodup {κ ν : Type} [DecidableEq κ] (l : List (κ × ν)) (k : κ) (v : ν) (h : (l.map (·.1)).Nodup) :
+    ((assocSet l k v).map (·.1)).Nodup := by
+  induction l with
+  | nil => simp [assocSet]
+  | cons x rest ih =>
+    obtain ⟨a, b⟩ := x
+    simp only [List.map_cons, List.nodup_cons] at h
+    by_cases ha : a = k
+    · subst ha; simpa [assocSet] using h
+    · simp only [assocSet, ha, if_false, List.map_cons, List.nodup_cons]
+      refine ⟨?_, ih h.2⟩
+      rw [mem_assocSet_keys]
+      rintro (e | e)
+      · exact ha e
+      · exact h.1 e
+
+theorem assocGet_filter {κ ν : Type} [DecidableEq κ] (l : List (κ × ν)) (p : ν → Bool) (k : κ) (h : (l.map (·.1)).Nodup) :
+    assocGet (l.filter fun x => p x.2) k = (assocGet l k).bind fun v => if p v then some v else none := by
+  induction l with
+  | nil => rfl
+  | cons x rest ih =>
+    obtain ⟨a, b⟩ := x
+    simp only [List.map_cons, List.nodup_cons] at h
+    by_cases ha : a = k
+    · subst ha
+      by_cases hp : p b
+      · simp [List.filter_cons, hp, assocGet]
+      · simp only [List.filter_cons, hp, Bool.false_eq_true, if_false, assocGet, if_true, Option.bind_some]
+        rw [ih h.2]
+        have : assocGet rest a = none := by
+          cases hg : assocGet rest a with
+          | none => rfl
+          | some v => exact absurd (List.mem_map.mpr ⟨(a, v), assocGet_mem hg, rfl⟩) h.1
+        simp [this]
+    · by_cases hp : p b
+      · simp [List.filter_cons, hp, assocGet, ha, ih h.2]
+      · simp [List.filter_cons, hp, assocGet, ha, ih h.2]
+
+theorem fold_names_keys (es : List Entry) (s : RS) (h : (s.routersName.map (·.1)).Nodup) :
+    ((es.foldl createRouter s).routersName.map (·.1)).Nodup := by
+  induction es generalizing s with
+  | nil => exact h
+  | cons x rest ih =>
+    apply ih
+    rw [createRouter_names]
+    split <;> exact assocSet_keys_nodup _ _ _ h
+
+/-- **C16 (lookup by nickname).**  After a replacement document with distinct relay identities, `routers[name]` answers
+    exactly for the nicknames carried by exactly one relay of that document, with that relay's object; a nickname
+    carried by none or by several is not a key. -/
+theorem C16_names_unique (s s' : RS) (ls : List NsLine) (es : List Entry) (hp : parseDoc ls = some es)
+    (hd : DistinctIds es) (hn : newConsensus s ls = some s') (n : Text) :
+    (nickCount es n = 1 → ∃ e ∈ es, e.nick = n ∧ ∃ o, assocGet s'.routersName n = some (some o) ∧
+        assocGet s'.routersHex e.id = some o) ∧
+    (nickCount es n ≠ 1 → assocGet s'.routersName n = none) := by
+  simp only [newConsensus, hp, Option.map_some, Option.some.injEq] at hn
+  subst hn
+  have h0 : NamesOk { s with old := s.routersHex, routersHex := [], routersName := [], all := [], byHash := [],
+                             byName := [], guards := [], authorities := [] } [] :=
+    ⟨fun _ _ => rfl, fun n hc => by simp [nickCount] at hc, fun n hc => by simp [nickCount] at hc⟩
+  have hN := fold_names_ok es _ [] h0 (by simpa [DistinctIds] using hd)
+  have hK := fold_names_keys es { s with old := s.routersHex, routersHex := [], routersName := [], all := [], byHash := [], byName := [], guards := [], authorities := [] } (by simp)
+  simp only [List.nil_append] at hN
+  simp only [dropDupNames]
+  have hf := fun k => assocGet_filter _ (fun (v : Option Nat) => v.isSome) k hK
+  refine ⟨fun hc => ?_, fun hc => ?_⟩
+  · obtain ⟨e, he, hen, o, h1, h2⟩ := hN.one n hc
+    exact ⟨e, he, hen, o, by rw [hf, h1]; rfl, h2⟩
+  · rw [hf]
+    by_cases h0' : nickCount es n = 0
+    · rw [hN.zero n h0']; rfl
+    · rw [hN.many n (by omega)]; rfl
 
 /-- the hypotheses are met, and the statement says something: relay 1 keeps object 0 across two documents while relay 2
     leaves and relay 3 joins; the bandwidth and flags shown are the second document's -/
